@@ -1195,6 +1195,11 @@ func (db *DB) allocate(txid common.Txid, count int) (*common.Page, error) {
 		if err != nil {
 			return nil, fmt.Errorf("mmap size calculation error: %w", err)
 		}
+		// grow() derives the new file size from the current mmap size, which
+		// may already be larger than the predicted one (high InitialMmapSize).
+		if nextMmapSize < db.datasz {
+			nextMmapSize = db.datasz
+		}
 		if runtime.GOOS == "windows" {
 			// nextAllocSize may not exactly match nextMmapSize.
 			// On Windows, this mismatch may cause the file size to slightly exceed maxSize,
